@@ -4,6 +4,7 @@ package mhcv
 
 import (
 	"fmt"
+	"strings"
 	"testing"
 
 	"github.com/cloudflare/circl/zz_verif/c19wb"
@@ -52,12 +53,38 @@ func TestVerifC19FLP(t *testing.T) {
 		vlib.Eval(sub)
 		var edits []c19wb.Edit
 		label := "valid"
-		k := rapid.IntRange(0, 4).Draw(t, "invalid")
+		vlib.Class(sub, c19wb.ChunkClass(n+nb, chunk))
+		k := rapid.IntRange(0, 6).Draw(t, "invalid")
 		if (k == 1 || k == 2) && maxW == length {
 			k = 3
 		}
+		if k >= 5 && n+nb < 2 {
+			k = 4
+		}
 		switch k {
 		case 0:
+		case 5, 6:
+			// two elements of the last chunk (where there are two) changed so
+			// that the weight check still balances: an entry counts +1, bit k of
+			// the claimed weight -2^k; both become non-bits
+			total := n + nb
+			start := ((total - 1) / int(chunk)) * int(chunk)
+			if total-start < 2 || k == 6 {
+				start = rapid.IntRange(0, total-2).Draw(t, "cstart")
+			}
+			i := rapid.IntRange(start, total-2).Draw(t, "ci")
+			j := rapid.IntRange(i+1, total-1).Draw(t, "cj")
+			coef := func(pos int) int64 {
+				if pos < n {
+					return 1
+				}
+				return -(int64(1) << uint(pos-n))
+			}
+			edits = []c19wb.Edit{{Idx: i, Kind: "add", Delta: 2 * coef(j)}, {Idx: j, Kind: "add", Delta: -2 * coef(i)}}
+			label = "weight-balanced-non-bits"
+			if i >= ((total-1)/int(chunk))*int(chunk) {
+				label = "weight-balanced-non-bits(last-chunk)"
+			}
 		case 1, 2:
 			tgt := rapid.IntRange(int(maxW)+1, n).Draw(t, "tw")
 			for _, i := range perm[w:tgt] {
@@ -90,7 +117,7 @@ func TestVerifC19FLP(t *testing.T) {
 			return
 		}
 		if label != "valid" && ok {
-			vlib.Report(t, "C19/flp/mhcv/invalid-accepted/"+label, desc)
+			vlib.Report(t, "C19/flp/mhcv/invalid-accepted/"+strings.TrimSuffix(label, "(last-chunk)"), desc)
 			return
 		}
 		vlib.NonTrivial(sub, label, []byte(desc))
